@@ -262,3 +262,28 @@ def object_component(name):
 # ------------------------------------------------------------------------------------------------
 def iflr_payload(frame_obname, frame_number, data):
     return obname(*frame_obname) + uvari(frame_number) + data
+
+
+# ------------------------------------------------------------------------------------------------
+# Exact decoders for the two historic float codes (used for expected cell / frame values)
+# ------------------------------------------------------------------------------------------------
+def isingl_exact(b):
+    """B.5 IBM single: (-1)^S * 16^(E-64) * M, M = 24 bit fraction."""
+    from fractions import Fraction
+    s, e = b[0] & 0x80, b[0] & 0x7F
+    m = (b[1] << 16) | (b[2] << 8) | b[3]
+    v = Fraction(m, 1 << 24) * Fraction(16) ** (e - 64)
+    return -v if s else v
+
+
+def vsingl_exact(b):
+    """B.6 VAX single as RP66 defines and exemplifies it (0C 44 00 80 = 153): (-1)^S (0.5 + M) 2^(E-128),
+    M = 23 bit fraction with the binary point at its left; E = 0 and S = 0 is zero."""
+    from fractions import Fraction
+    s = b[1] & 0x80
+    m = ((b[0] & 0x7F) << 16) | (b[3] << 8) | b[2]
+    e = ((b[1] & 0x7F) << 1) | ((b[0] & 0x80) >> 7)
+    if e == 0 and not s:
+        return Fraction(0)
+    v = (Fraction(1, 2) + Fraction(m, 1 << 23)) * Fraction(2) ** (e - 128)
+    return -v if s else v
